@@ -56,6 +56,13 @@ def dollar(text):
     return re.sub(r'<[^<>\s]*>|"(?:[^"\\]|\\.)*"|\?([A-Za-z_][A-Za-z0-9_]*)', lambda m: m.group(0) if m.group(1) is None else "$" + m.group(1), text)
 
 
+def with_prefix(text):
+    """The same request with a PREFIX prologue and the IRIs of the namespace written as prefixed names."""
+    import re
+    body = re.sub(r'"(?:[^"\\]|\\.)*"|<' + re.escape(NS) + r'([A-Za-z0-9_]+)>', lambda m: m.group(0) if m.group(1) is None else "e:" + m.group(1), text)
+    return "PREFIX e: <" + NS + "> " + body
+
+
 def tr(t):
     return "?" + t[1] if t[0] == "v" else ("UNDEF" if t[0] == "u" else render(t[1]))
 
@@ -741,7 +748,8 @@ class UpdGen:
 GARBAGE = ["", " ", "{", "}", "SELECT", "SELECT WHERE", "INSERT DATA {", "DELETE WHERE", "é", "SELECT é", "SELECT ?s WHERE { ?s é ?o }",
            "SELECT ?s WHERE { ?s ?p ?o } é", " ", "INSERT DATA { <a> <b> \"é }", "SELECT * WHERE { ?s ?p ?o ", "😀😀😀",
            "PREFIX : <http://e/> SELECT", "SELECT ?s WHERE { GRAPH { ?s ?p ?o } }", "DROP ALL", "ASK { ?s ?p ?o }", "﻿SELECT * WHERE { }",
-           "SELECT ?s WHERE { ?s <http://e/p1> \"é", "SELECT ?s WHERE { ?s <http://e/\\u00eé> ?o }", "SELECT ?s WHERE { ?s <http://e/\\U000000e€> ?o }",
+           "SELECT ?s WHERE { ?s <http://e/p1> \"é", "SELECT ?s WHERE { ?s ?p ex:caf%C3%A", "DELETE DATA { GRAPH ex:g%4", "PREFIX ex: <http://e/> SELECT ?s WHERE { ?s ex:p%4", "SELECT ?s WHERE { ?s ?p ?東京都 ?q }",
+           "SELECT ?s WHERE { ?名前 ?p ?値 ?q }", "SELECT ?s WHERE { ?s <http://e/\\u00eé> ?o }", "SELECT ?s WHERE { ?s <http://e/\\U000000e€> ?o }",
            "INSERT DATA { <http://e/i1> <http://e/\\u00é> <http://e/i2> . }", "SELECT ?s FROM <http://e/\\u0é> WHERE { ?s ?p ?o }", "INSERT DATA { <http://e/i1> <http://e/p1> 'é' . } é", "LOAD <x>", "select ☃ where {}"]
 MULTIBYTE = ["é", "✓", "😀", " ", "﻿", "ß"]
 
@@ -749,8 +757,12 @@ MULTIBYTE = ["é", "✓", "😀", " ", "﻿", "ß"]
 def fuzz(rng, text):
     """Structured faults on a valid request: returns (mutated text, fault description)."""
     toks = text.split(" ")
-    k = rng.randint(0, 9)
+    k = rng.randint(0, 10)
     i = rng.randrange(len(toks))
+    if k == 10:
+        # the request ends inside a token: a prefixed name cut in the middle of a %HH escape, an open string, a lone sigil ...
+        cut = rng.choice(["ex:a%4", "ex:caf%C3%A", "ex:g%", ":x%e", "ex:", '"abc', "'", "<http://e/i", "?", "$", "_:", '"l1"^^', '"l1"@', "1.", "-", "<<"])
+        return " ".join(toks[:max(1, i)] + [cut]), f"text ends inside a token after token {max(1, i) - 1}"
     if k >= 8:
         # a \u / \U escape whose digit window is cut short by a multi-byte character, a non-hex letter or the end of the
         # token, inside an IRI or a literal (or, failing that, any token)
